@@ -29,7 +29,7 @@ try:
         txt = open(d).read()
         m = re.search(r"^package\s+(\w+)", txt, re.M)
         pkg = m.group(1)
-        sub = {"tally": ".", "tally_test": ".", "m3": "m3", "m3_test": "m3", "thriftudp": "m3/thriftudp", "prometheus": "prometheus", "multi": "multi", "statsd": "statsd", "instrument": "instrument", "customtransport": "m3/customtransports", "cache": "internal/cache", "main": None}.get(pkg, ".")
+        sub = {"tally": ".", "tally_test": ".", "m3": "m3", "m3_test": "m3", "thriftudp": "m3/thriftudp", "prometheus": "prometheus", "multi": "multi", "statsd": "statsd", "instrument": "instrument", "customtransport": "m3/customtransports", "cache": "internal/cache", "v2": "m3/thrift/v2", "m3thrift": "m3/thrift/v2", "thrift": "thirdparty/github.com/apache/thrift/lib/go/thrift", "main": None}.get(pkg, ".")
         placed.append((d, sub, pkg))
     pkgs = sorted({("./" + s if s != "." else ".") for _, s, _ in placed if s is not None})
     def place():
